@@ -60,6 +60,13 @@ except (ImportError, AttributeError):
     import SocketServer as socketserver  # type: ignore
 
 try:
+    # Python 3
+    import queue  # pylint: disable=F0401
+except ImportError:
+    # Python 2
+    import Queue as queue  # type: ignore # pylint: disable=F0401
+
+try:
     # Windows
     import fcntl
 except ImportError:
@@ -381,17 +388,29 @@ class SimpleJSONRPCDispatcher(SimpleXMLRPCDispatcher, object):
 
         # Test if this is a notification request
         is_notification = "id" not in request or request["id"] in (None, "")
+        pooled = False
         if is_notification and self.__notification_pool is not None:
             # Use the thread pool for notifications
-            if dispatch_method is not None:
-                self.__notification_pool.enqueue(
-                    dispatch_method, method, params
-                )
-            else:
-                self.__notification_pool.enqueue(
-                    self._dispatch, method, params, config
+            try:
+                if dispatch_method is not None:
+                    self.__notification_pool.enqueue(
+                        dispatch_method, method, params
+                    )
+                else:
+                    self.__notification_pool.enqueue(
+                        self._dispatch, method, params, config
+                    )
+                pooled = True
+            except queue.Full:
+                # The (bounded) queue of the pool is full: the notification
+                # must neither be lost nor make the dispatcher fail, so it is
+                # handled in the current thread
+                _logger.warning(
+                    "Notification pool is full: %s handled synchronously",
+                    method,
                 )
 
+        if pooled:
             # Return immediately
             return None
         else:
